@@ -12,6 +12,42 @@ NOT_BUILT = "check not built yet in this round (claimed by DESIGN.md; " \
             "listed here until its static check exists and is exact)"
 
 CHECKS = {
+    "C02": {
+        "text": "Each of the seven objective kernels is summarised into a "
+                "closed form (arg-max-group, per-key accumulation, max "
+                "reductions) with the wrapper's arguments substituted; the "
+                "value must split as S*(B-1)+T, the same scale S must "
+                "appear in to_bin_count, upper_bound and lower_bound, and T "
+                "must equal the documented reduction for the four "
+                "count/area objectives. Scratch sizing/reset, the "
+                "cross-objective agreement guard and int() conversion "
+                "before arithmetic on instance entries are decided "
+                "structurally.",
+        "design_ref": "DESIGN.md section 4, C02",
+        "note": "Decides D2.1-D2.5. Not decided: the skyline areas (only "
+                "their offset-free shape), validity of lower_bound(), "
+                "dominance between packings. Trusted: Packing shape "
+                "contract, N1.",
+        "technique": "loop-reduction normal forms + polynomial coefficient "
+                     "extraction + sibling agreement across methods",
+    },
+    "C17": {
+        "text": "Ghost-variable (area ledger) rule on the instance decoder: "
+                "phase-1 cut blocks are evaluated symbolically and must "
+                "conserve area with exactly one append per iteration; every "
+                "phase-2 shrinking store must be matched on the same path "
+                "by an update of current_area by the polynomially equal "
+                "delta, and the cut limit must use the other dimension and "
+                "the remaining slack. Dataflow into Instance(...), min_area, "
+                "seed provenance, statelessness and the [0,1] clamps of the "
+                "instgen objectives are decided on the AST.",
+        "design_ref": "DESIGN.md section 4, C17",
+        "note": "Decides D17.1-D17.4. Not decided: lower_bound_bins == "
+                "min_bins as a value (needs C03's undecided half), "
+                "Errors == 0 on the template, the merge step.",
+        "technique": "symbolic block evaluation (polynomial identities on "
+                     "a ghost area ledger) + structural dataflow/provenance",
+    },
     "C06": {
         "text": "Both move kernels are normalised symbolically: the "
                 "incremental delta must be the 2-opt identity (polynomial "
